@@ -24,6 +24,7 @@ PROFILE_MODULES = {
     "C01": "dsim.profiles.valuesp",
     "C03": "dsim.profiles.grid",
     "C11": "dsim.profiles.addressing",
+    "C17": "dsim.profiles.damage",
     "C19": "dsim.profiles.names",
 }
 
